@@ -285,6 +285,30 @@ func mutations(mat *g.Material, fl string) []mutation {
 			m.Items[0].Ident = strings.Repeat("ab", 300)
 		}
 	})
+	// identity fields of every length class the log / abbreviation code distinguishes; the share
+	// / key is the genuine one for that identity and signatures are made afterwards, so that
+	// validation accepts and the dispatch code behind it (LogInfo, handlers) is reached
+	for _, k := range []int{0, 1, 2, 3, 31, 32, 33} {
+		k := k
+		idk := strings.Repeat("01", k)
+		add(fmt.Sprintf("identity[0]=%d-bytes-resigned", k), func(m *g.Msg) {
+			switch m.Type {
+			case "shares", "keys":
+				if len(m.Items) > 0 {
+					m.Items[0] = g.Item{Ident: idk, Val: good(m, idk)}
+				}
+			case "trigger":
+				m.Ident = idk
+			case "eonpk":
+				m.Ident = "pk:" + idk
+			}
+		})
+		add(fmt.Sprintf("only-identity=%d-bytes-resigned", k), func(m *g.Msg) {
+			if (m.Type == "shares" || m.Type == "keys") && len(m.Items) > 0 {
+				m.Items = []g.Item{{Ident: idk, Val: good(m, idk)}}
+			}
+		})
+	}
 	add("identity-repeated-resigned", func(m *g.Msg) {
 		// the same identity preimage twice (non-decreasing, not strictly increasing), signatures made afterwards
 		if len(m.Items) > 1 {
@@ -435,6 +459,9 @@ func panicKey(fl, where, msg string) string {
 	case strings.Contains(msg, "index out of range [64]"):
 		return "C05:primev-handler-short-bid-signature"
 	}
+	if where == "dispatch" {
+		return "C05:" + fl + ":dispatch-around-handlers-panics"
+	}
 	return "C05:" + fl + ":" + where + "-panics"
 }
 
@@ -469,7 +496,10 @@ func (r *runner) runBytes(c *caseJ) {
 	n := w.Node(c.Flavour, c.State)
 	res, ex := n.Combined(c.RegTopic, c.MsgTopic, data)
 	r.checkExec(c, "validate", ex, len(data))
-	wire, _ := mat.DecodeWire(data)
+	wire, decoded := mat.DecodeWire(data)
+	if decoded != nil {
+		r.runMethods(c, decoded, len(data))
+	}
 	stCoq := c.State.Coq(mat)
 	id := run.NextID()
 	run.Dist[c.Flavour+":"+c.RegTopic+":"+res]++
@@ -517,11 +547,41 @@ func (r *runner) runBytes(c *caseJ) {
 	id2 := run.NextID()
 	run.Dist[c.Flavour+":handle:"+map[bool]string{true: "crash", false: "done"}[h.Exec.Crashed()]]++
 	run.AddCase(id2, vh.CApp("CHandle", vh.CN(id2), g.CoqNode(c.Flavour), st2.Coq(mat), perms, term, g.CoqHres(h.Exec)), c, c.key()+"/handle", true)
-	if c.Raw {
-		// the unexported handle on the bytes (fresh database): panics only
-		w.Install(st2)
-		_, ex := n.HandleRaw(c.MsgTopic, data)
-		r.checkExec(c, "handle", ex, len(data))
+	// what the generic dispatch does around the handlers: the unexported P2PMessaging.handle on
+	// the bytes (unmarshal, Handle, SendMessage of the results, the "received message" log with
+	// LogInfo), on a fresh copy of the database: panics only
+	w.Install(st2)
+	_, exr := n.HandleRaw(c.MsgTopic, data)
+	r.checkExec(c, "dispatch", exr, len(data))
+}
+
+// runMethods: the methods of the p2pmsg message types that validators, the dispatch loop and
+// the senders call on a decoded message (Validate, Topic, LogInfo, String, GetInstanceId).
+// They run for every message that decodes: nodes whose validators accept everything (p2pnode
+// listener, snapshot hub) reach the "received message" log of P2PMessaging.handle with any
+// decodable message, and every flavour reaches it with the messages it accepts.
+func (r *runner) runMethods(c *caseJ, pm p2pmsg.Message, size int) {
+	for _, f := range []struct {
+		name string
+		call func()
+	}{
+		{"Validate", func() { _ = pm.Validate() }},
+		{"Topic", func() { _ = pm.Topic() }},
+		{"LogInfo", func() { _ = pm.LogInfo() }},
+		{"String", func() { _ = pm.String() }},
+		{"GetInstanceId", func() { _ = pm.GetInstanceId() }},
+	} {
+		ex := r.w.GuardCall(f.call)
+		if ex.Crashed() || ex.Alloc > uint64(64*size)+2<<20 {
+			what := fmt.Sprintf("%T.%s", pm, f.name)
+			key := "C05:message-method-panics:" + strings.TrimPrefix(what, "*p2pmsg.")
+			if ex.Timeout {
+				key = "C05:message-method-hangs:" + strings.TrimPrefix(what, "*p2pmsg.")
+			} else if !ex.Crashed() {
+				key = "C05:message-method-allocation:" + strings.TrimPrefix(what, "*p2pmsg.")
+			}
+			r.violate(c, key, what+" on a decoded message: "+ex.Panic, ex)
+		}
 	}
 }
 
